@@ -330,7 +330,11 @@ func (e *Engine) exec(st *State, f *Frame, instr ssa.Instruction) {
 		var r Value
 		switch in.Op {
 		case token.MUL:
-			r = e.load(st, x.(Ptr), in.Type())
+			if xp := x.(Ptr); xp.IsNil() && e.opaqueType(in.Type()) {
+				r = e.Zero(in.Type()) // field of an opaque (black-holed) nil object
+			} else {
+				r = e.load(st, xp, in.Type())
+			}
 		case token.NOT:
 			r = c.Not(x.(*smt.Term))
 		case token.SUB:
@@ -356,6 +360,12 @@ func (e *Engine) exec(st *State, f *Frame, instr ssa.Instruction) {
 	case *ssa.FieldAddr:
 		p := e.val(st, f, in.X).(Ptr)
 		if p.IsNil() {
+			if pt, ok := in.X.Type().Underlying().(*types.Pointer); ok && e.isBlackHoleType(pt.Elem()) {
+				// opaque object of a black-holed package (logger, tracer): its fields stay opaque
+				e.setEnv(st, f, in, Ptr{})
+				f.pc++
+				return
+			}
 			e.runtimePanic(st, "nil pointer dereference")
 			return
 		}
@@ -643,6 +653,17 @@ func (e *Engine) panicMsg(st *State, v Value) string {
 
 func (e *Engine) runtimePanic(st *State, msg string) {
 	site := e.site(st)
+	if os.Getenv("GOSMT_DEBUG_PANIC") != "" && st.mayPanic == 0 {
+		fmt.Fprintf(os.Stderr, "RUNTIME PANIC %s at %s\n", msg, site)
+		for i := len(st.frames) - 1; i >= 0 && i >= len(st.frames)-6; i-- {
+			f := st.frames[i]
+			ins := ""
+			if f.block != nil && f.pc < len(f.block.Instrs) {
+				ins = f.block.Instrs[f.pc].String()
+			}
+			fmt.Fprintf(os.Stderr, "   frame %s: %s\n", f.fn.String(), ins)
+		}
+	}
 	e.doPanic(st, &PanicInfo{Val: IfaceV{T: types.Typ[types.String], V: StrV{Conc: true, S: "runtime error: " + msg}},
 		Msg: "runtime error: " + msg, Site: site, Runtime: true})
 }
@@ -791,6 +812,14 @@ func (e *Engine) isBlackHoleType(t types.Type) bool {
 		return e.isBlackHolePkg(n.Obj().Pkg().Path())
 	}
 	return false
+}
+
+// opaqueType: a named type (or pointer to one) of a black-holed package.
+func (e *Engine) opaqueType(t types.Type) bool {
+	if p, ok := t.(*types.Pointer); ok {
+		t = p.Elem()
+	}
+	return e.isBlackHoleType(t)
 }
 
 func (e *Engine) isBlackHolePkg(path string) bool {
